@@ -146,8 +146,9 @@ func cliRun(args []string) int {
 		switch sc.Color {
 		case "flag":
 			flags = append(flags, "--no-color")
-		case "env":
-			env = append(env, "NO_COLOR=")
+		case "env": // present, whatever its value
+			noColorRuns++
+			env = append(env, "NO_COLOR="+[]string{"", "1", "0", "false", "F", "no", "off", "true", "FALSE", "00"}[noColorRuns%10])
 		}
 		var plats []string
 		allPlat, noCross := false, false
@@ -232,7 +233,8 @@ func cliRun(args []string) int {
 				argv = append(argv, "-v")
 			}
 			if sc.Color == "env" {
-				env = append(env, "NO_COLOR=1")
+				noColorRuns++
+				env = append(env, "NO_COLOR="+[]string{"1", "0", "false", "f", "False"}[noColorRuns%5])
 			}
 			argv = append(argv, pos...)
 		}
@@ -413,6 +415,8 @@ func argvQuery(argv []string) []string {
 	}
 	return nil
 }
+
+var noColorRuns int
 
 // runWtfColor is runWtf without the blanket NO_COLOR (colour switches are part of the scenario)
 func runWtfColor(args []string, _ bool, extraEnv []string) (string, int, error) {
